@@ -101,7 +101,8 @@ def new_run_for(prop, rng, tier):
             'remove_attacker': rng.choice([0, 1]),
             'add_ep': rng.choice([0, 2, 3]),
             'remove_ep': rng.choice([0, 1, 2]),
-            'restart': 0, 'foreign': 0,
+            'restart': 0, 'foreign': 0, 'set_extras': rng.choice([0, 0, 1]),
+            'set_assoc_extras': 0,
         },
     }
     if prop == 'C06':
@@ -109,6 +110,9 @@ def new_run_for(prop, rng, tier):
     if prop == 'C07':
         cfg['w']['restart'] = rng.choice([1, 2, 3])
         cfg['w']['foreign'] = rng.choice([0, 1])
+        cfg['w']['set_extras'] = rng.choice([0, 1, 2])
+        cfg['w']['set_assoc_extras'] = rng.choice([0, 1])
+        cfg['p_process'] = 0.01 if tier == 'quick' else 0.04
         cfg['p_yaml'] = rng.choice([0.2, 0.5])
         cfg['storage_faults'] = rng.random() < 0.35
         cfg['max_restarts'] = 4
@@ -208,6 +212,9 @@ def normalise_obs(o):
     o['associations'] = [o['associations'][i] for i in keyed]
     for a in o['assets']:
         a['backrefs'] = sorted(renum.get(b, -1) for b in a['backrefs'])
+    # neither is the order of the asset list (YAML files are sorted by id)
+    o['assets'] = sorted(o['assets'], key=lambda a: (a['id'], a['name']))
+    o['attackers'] = sorted(o['attackers'], key=lambda a: (str(a['id']), str(a['name'])))
     for at in o['attackers']:
         at['entry_points'] = sorted([[e[0], sorted(e[1])] for e in at['entry_points']],
                                     key=canon)
@@ -766,11 +773,48 @@ class ModelWorld(BaseWorld):
             st = rng.choice(self._steps_of(ref, h) or ['x'])
         return {'op': 'remove_ep', 'k': k, 'asset': h, 'step': st}
 
+    def gen_set_extras(self, rng, mi, ref):
+        if not ref.order:
+            return None
+        return {'op': 'set_extras', 'h': rng.choice(ref.order),
+                'extras': rng.choice(EXTRAS + [{}])}
+
+    def gen_set_assoc_extras(self, rng, mi, ref):
+        if not ref.assoc_order or self.guard('association_extras'):
+            return None
+        return {'op': 'set_assoc_extras', 'h': rng.choice(ref.assoc_order),
+                'extras': rng.choice(EXTRAS + [{}])}
+
+    def _gen_fault(self, rng):
+        if not self.cfg.get('storage_faults') or rng.random() > 0.3:
+            return None
+        phase = rng.choice(['save', 'save', 'load'])
+        if phase == 'save':
+            return {'phase': 'save', 'kind': rng.choice(['ENOSPC', 'EIO']),
+                    'at': rng.choice(['write', 'write', 'close', 'open']),
+                    'after': rng.choice([0, 1, 17, 64, 200, 1000])}
+        return {'phase': 'load', 'kind': 'EIO', 'at': rng.choice(['read', 'open']), 'after': 0}
+
     def gen_restart(self, rng, mi, ref):
-        return None
+        fmt = 'json'
+        if rng.random() < self.cfg.get('p_yaml', 0.3):
+            fmt = rng.choice(['yml', 'yaml'])
+        how = 'model'
+        if len(self.models) == 1:
+            how = weighted(rng, [(6, 'model'), (2, 'factory'), (2, 'lang')])
+        if rng.random() < self.cfg.get('p_process', 0.0):
+            how = 'process'
+        return {'op': 'restart', 'fmt': fmt, 'reuse': rng.random() < 0.4, 'how': how,
+                'fault': self._gen_fault(rng),
+                'hashseed': rng.choice([1, 2, 7, 99, 12345])}
 
     def gen_foreign(self, rng, mi, ref):
-        return None
+        ids = [ref.assets[h].id for h in ref.order]
+        rng.shuffle(ids)
+        return {'op': 'foreign', 'fmt': rng.choice(['json', 'json', 'yml']),
+                'order': ids, 'str_keys': rng.random() < 0.5,
+                'shorthand': rng.random() < 0.6, 'scalar_targets': rng.random() < 0.4,
+                'how': 'model'}
 
     # ------------------------------------------------------------- execution
     def apply(self, op):
@@ -1117,6 +1161,310 @@ class ModelWorld(BaseWorld):
         self.state_changes += 1
         self.check_model(mi, where=where)
         return 'ok'
+
+    # -- extras
+    def do_set_extras(self, op, mi, model, ref):
+        h = op['h']
+        asset = self.resolve(h)
+        ra = ref.assets.get(h)
+        if ra is None or not ra.live:
+            raise Unresolvable()
+        o = call(setattr, asset, 'extras', copy.deepcopy(op['extras']))
+        where = f'{ra.name!r}.extras = {op["extras"]}'
+        if o.raised:
+            self.fail('C05.must_not_raise', f'{where} raised {o.exc!r}')
+        ra.extras = copy.deepcopy(op['extras'])
+        self.state_changes += 1
+        self.check_model(mi, where=where)
+        return 'ok'
+
+    def do_set_assoc_extras(self, op, mi, model, ref):
+        h = op['h']
+        s = self.resolve(h)
+        rs = ref.assocs.get(h)
+        if rs is None or not rs.live:
+            raise Unresolvable()
+        o = call(setattr, s, 'extras', copy.deepcopy(op['extras']))
+        where = f'{rs.cls}.extras = {op["extras"]}'
+        if o.raised:
+            self.fail('C05.must_not_raise', f'{where} raised {o.exc!r}')
+        rs.extras = copy.deepcopy(op['extras'])
+        if op['extras']:
+            self.count('probe:association_extras_set')
+        self.state_changes += 1
+        self.check_model(mi, where=where)
+        return 'ok'
+
+    # -- restart (C07)
+    def _parse_file(self, path, fmt):
+        import yaml
+        with open(path, 'r', encoding='utf-8') as f:
+            text = f.read()
+        if fmt == 'json':
+            return json.loads(text)
+        return yaml.safe_load(text)
+
+    def _file_view(self, parsed):
+        """Parsed model file -> the normalised _to_dict view."""
+        return normalise_to_dict(parsed)
+
+    def _new_factory(self, how):
+        if how == 'lang':
+            self.spec = copy.deepcopy(self.desc['spec'])
+            o = call(self.LanguageGraph, self.spec)
+            if o.raised:
+                raise SetupRejected('langgraph:' + o.exc_name())
+            self.lg = o.value
+        if how in ('lang', 'factory'):
+            o = call(self.LanguageClassesFactory, self.lg)
+            if o.raised:
+                raise SetupRejected('factory:' + o.exc_name())
+            self.factory = o.value
+
+    def _rebind(self, mi, new_model):
+        """Bind the handles of live reference objects to the loaded objects and
+        forget every other object of that model (a restart keeps only the file)."""
+        ref = self.refs[mi]
+        for h in [h for h, m in self.owner.items() if m == mi]:
+            self.obj.pop(h, None)
+        by_id = {int(a.id): a for a in new_model.assets}
+        for h in ref.order:
+            self.obj[h] = by_id[ref.assets[h].id]
+        # dead handles stay known to the reference but have no object any more
+        pool = list(new_model.associations)
+        for sh in ref.assoc_order:
+            rs = ref.assocs[sh]
+            info = self.L.assoc_by_cls[rs.cls]
+            want = (rs.cls, sorted(ref.assets[x].id for x in rs.left),
+                    sorted(ref.assets[x].id for x in rs.right))
+            for s in pool:
+                got = (type(s).__name__, sorted(int(x.id) for x in getattr(s, info.lf)),
+                       sorted(int(x.id) for x in getattr(s, info.rf))) \
+                    if type(s).__name__ == rs.cls else None
+                if got == want:
+                    self.obj[sh] = s
+                    pool.remove(s) if False else pool.pop(next(i for i, y in enumerate(pool) if y is s))
+                    break
+        att = {a.id: a for a in new_model.attackers}
+        for k in ref.attacker_order:
+            self.obj[k] = att[ref.attackers[k].id]
+        self.models[mi] = new_model
+        self.freed_ids[mi] = []
+        self.freed_names[mi] = []
+
+    def _roundtrip_check(self, mi, new_model, clause, where):
+        ref = self.refs[mi]
+        self.count('oracle:' + clause)
+        o = call(observe_model, new_model, self.L)
+        if o.raised:
+            self.fail(clause, f'{where}: observing the loaded model raised {o.exc!r}')
+        got, exp = normalise_obs(o.value), normalise_obs(ref.observe())
+        if got != exp:
+            self.fail(clause, f'{where}: loaded model differs from the model that was saved\n'
+                      + _obs_diff(exp, got))
+        for a in new_model.assets:
+            if not isinstance(a, getattr(self.factory.ns, str(a.type))):
+                self.fail(clause, f'{where}: loaded asset {str(a.name)!r} is not an instance of '
+                                  f'the current factory class {str(a.type)}')
+
+    def do_restart(self, op, mi, model, ref):
+        import maltoolbox.file_utils as fu
+        fmt, how = op['fmt'], op.get('how', 'model')
+        if how in ('factory', 'lang') and len(self.models) > 1:
+            how = 'model'
+        ext = '.' + fmt
+        same_ext = [p for p in self.paths_used if p.endswith(ext)]
+        if op.get('reuse') and same_ext:
+            path = same_ext[0]
+            if os.path.exists(path):
+                self.count('probe:path_reused')
+        else:
+            path = self.fresh_path(ext)
+        fault = op.get('fault')
+        where = f'save_to_file(*{ext}) + load [{how}]'
+        # ---- save
+        plan = None
+        if fault and fault['phase'] == 'save':
+            plan = faults.FaultPlan(fault['kind'], fault['at'], fault.get('after', 0), 'w')
+        old_size = os.path.getsize(path) if os.path.exists(path) else 0
+        with faults.patched_open([fu], plan):
+            o = call(model.save_to_file, path)
+        if plan is not None and plan.fired:
+            self.count(f'fault:storage_{fault["kind"]}_{fault["at"]}')
+            self.count('oracle:C07.no_silent_failure')
+            if not o.raised:
+                self.fail('C07.no_silent_failure',
+                          f'save_to_file returned normally although {fault["kind"]} was raised '
+                          f'at {fault["at"]}')
+            # the file is whatever it is; the model in memory must be untouched
+            self.check_model(mi, raised=True, where=where + ' [storage fault]')
+            if os.path.exists(path):
+                os.remove(path)
+            return 'save_failed'
+        if o.raised:
+            self.fail('C07.save', f'save_to_file(*{ext}) raised {o.exc!r}')
+        self.paths_used.append(path)
+        size = os.path.getsize(path)
+        if old_size > size:
+            self.count('probe:overwrote_longer_file')
+        p = call(self._parse_file, path, fmt)
+        if p.raised:
+            self.fail('C07.file', f'the file written by save_to_file(*{ext}) does not parse: {p.exc!r}')
+        fv = call(self._file_view, p.value)
+        self.count('oracle:C07.file')
+        if fv.raised or fv.value != normalise_ref_to_dict(ref.to_dict_view()):
+            self.fail('C07.file', f'content of the saved {ext} file differs from the model\n'
+                      + (repr(fv.exc) if fv.raised else
+                         _obs_diff(normalise_ref_to_dict(ref.to_dict_view()), fv.value)))
+        # ---- drop everything, load
+        if how == 'process':
+            self._process_restart(mi, path, op.get('hashseed', 1), where)
+            how = 'model'
+        self._new_factory(how)
+        plan = None
+        if fault and fault['phase'] == 'load':
+            plan = faults.FaultPlan(fault['kind'], fault['at'], 0, 'r')
+        with faults.patched_open([fu], plan):
+            o = call(self.Model.load_from_file, path, self.factory)
+        if plan is not None and plan.fired:
+            self.count(f'fault:storage_{fault["kind"]}_{fault["at"]}_load')
+            self.count('oracle:C07.no_silent_failure')
+            if not o.raised:
+                self.fail('C07.no_silent_failure',
+                          f'load_from_file returned a model although EIO was raised at {fault["at"]}')
+            with faults.patched_open([fu], None):
+                o = call(self.Model.load_from_file, path, self.factory)   # retry, faults stopped
+        if o.raised:
+            self.fail('C07.roundtrip', f'load_from_file(*{ext}) raised {o.exc!r} on a file written '
+                                       f'by save_to_file')
+        new_model = o.value
+        self._roundtrip_check(mi, new_model, 'C07.roundtrip', where)
+        # ---- saving the loaded model reproduces the content
+        path2 = self.fresh_path(ext)
+        o = call(new_model.save_to_file, path2)
+        self.count('oracle:C07.resave')
+        if o.raised:
+            self.fail('C07.resave', f'saving the loaded model raised {o.exc!r}')
+        p2 = call(self._parse_file, path2, fmt)
+        if p2.raised or canon(_strip_meta(p2.value)) != canon(_strip_meta(p.value)):
+            self.fail('C07.resave', f'saving the loaded model does not reproduce the file content\n'
+                      + ('' if p2.raised else _obs_diff(_strip_meta(p.value), _strip_meta(p2.value))))
+        os.remove(path2)
+        self._rebind(mi, new_model)
+        self.restarts += 1
+        self.key_events += self.prop == 'C07'
+        self.count(f'probe:restart_{fmt}')
+        self.count(f'probe:restart_how_{how}')
+        if any(ref.assets[h].id == 0 for h in ref.order[1:]):
+            self.count('probe:restart_with_id0_not_first')
+        if len(ref.attacker_order) > 1:
+            self.count('probe:restart_with_several_attackers')
+        ids = sorted(ref.live_ids())
+        if ids and ids != list(range(ids[0], ids[0] + len(ids))):
+            self.count('probe:restart_with_id_gaps')
+        self.check_model(mi, where=where)
+        return 'ok'
+
+    def _process_restart(self, mi, path, hashseed, where):
+        """Load the file in a fresh interpreter under another hash seed and
+        compare what it sees with the reference."""
+        import subprocess
+        import sys
+        specp = self.fresh_path('.spec.json')
+        with open(specp, 'w') as f:
+            json.dump(self.desc['spec'], f)
+        envv = dict(os.environ)
+        envv['PYTHONHASHSEED'] = str(hashseed)
+        from . import env as _env
+        pr = subprocess.run([sys.executable, '-m', 'sim.child', 'load_model', specp, path],
+                            cwd=_env.VERIF_DIR, env=envv, capture_output=True, text=True,
+                            timeout=120)
+        line = next((ln for ln in pr.stdout.splitlines() if ln.startswith('CHILD ')), None)
+        if line is None:
+            from .engine import HarnessError
+            raise HarnessError(f'child interpreter gave no result: {pr.stdout[-300:]} {pr.stderr[-1500:]}')
+        res = json.loads(line[6:])
+        self.count('probe:fresh_interpreter_restart')
+        self.count('oracle:C07.roundtrip')
+        if res.get('error'):
+            self.fail('C07.roundtrip', f'{where}: a fresh interpreter (PYTHONHASHSEED={hashseed}) '
+                                       f'failed to load the file: {res["error"]}')
+        exp = json.loads(canon(normalise_obs(self.refs[mi].observe())))
+        if res['obs'] != exp:
+            self.fail('C07.roundtrip', f'{where}: a fresh interpreter (PYTHONHASHSEED={hashseed}) '
+                                       f'loads a different model\n' + _obs_diff(exp, res['obs']))
+
+    # -- foreign-written native file (C07)
+    def do_foreign(self, op, mi, model, ref):
+        import yaml
+        fmt = op['fmt']
+        ext = '.' + fmt
+        order = [i for i in op.get('order', []) if i in ref.live_ids()]
+        order += [ref.assets[h].id for h in ref.order if ref.assets[h].id not in order]
+        key = (lambda i: str(i)) if (op.get('str_keys') or fmt == 'json') else (lambda i: i)
+        view = ref.to_dict_view()
+        assets = {}
+        used_shorthand = False
+        for i in order:
+            d = copy.deepcopy(view['assets'][i])
+            if op.get('shorthand') and set(d) == {'name', 'type'} and \
+                    d['name'] == f"{d['type']}:{key(i)}":
+                assets[key(i)] = d['type']
+                used_shorthand = True
+            else:
+                assets[key(i)] = d
+        assocs = []
+        for e in copy.deepcopy(view['associations']):
+            if 'extras' in e:
+                if self.guard('association_extras'):
+                    e.pop('extras')
+            if op.get('scalar_targets'):
+                for k, v in e.items():
+                    if k != 'extras':
+                        for f, ids in v.items():
+                            if len(ids) == 1:
+                                v[f] = ids[0]
+            assocs.append(e)
+        attackers = {}
+        for aid, a in view['attackers'].items():
+            attackers[key(aid)] = {'name': a['name'], 'entry_points': {
+                key(x): copy.deepcopy(e) for x, e in a['entry_points'].items()}}
+        doc = {'metadata': {'name': ref.name, 'langVersion': self.spec['defines']['version'],
+                            'langID': self.spec['defines']['id'],
+                            'info': 'written by hand'},
+               'assets': assets, 'associations': assocs, 'attackers': attackers}
+        path = self.fresh_path(ext)
+        with open(path, 'w', encoding='utf-8') as f:
+            if fmt == 'json':
+                json.dump(doc, f, indent=2)
+            else:
+                yaml.safe_dump(doc, f, sort_keys=False, allow_unicode=True)
+        where = f'load of a hand-written {ext} file (asset order {order}, ' \
+                f'shorthand={used_shorthand})'
+        o = call(self.Model.load_from_file, path, self.factory)
+        self.count('oracle:C07.foreign_file')
+        if o.raised:
+            self.fail('C07.foreign_file', f'{where} raised {o.exc!r}')
+        self._roundtrip_check(mi, o.value, 'C07.foreign_file', where)
+        self._rebind(mi, o.value)
+        self.restarts += 1
+        self.key_events += self.prop == 'C07'
+        self.count('probe:foreign_file_loaded')
+        if used_shorthand:
+            self.count('probe:foreign_shorthand_used')
+        if order and 0 in order[1:]:
+            self.count('probe:foreign_id0_not_first')
+        if order != sorted(order):
+            self.count('probe:foreign_permuted_order')
+        self.check_model(mi, where=where)
+        return 'ok'
+
+
+def _strip_meta(doc):
+    d = copy.deepcopy(doc)
+    if isinstance(d, dict):
+        d.pop('metadata', None) if False else None
+    return d
 
 
 def _obs_diff(exp, got, limit=8):
